@@ -6,3 +6,5 @@ func asmPositiveControls(c *Ctx, r *Report) {}
 func c16More(c *Ctx, r *Report, p *Prog, f *Folder, P, N interface{}) {}
 
 func c15More(c *Ctx, r *Report, p *Prog, f *Folder) {}
+
+func taintPositiveControls(c *Ctx, r *Report) {}
